@@ -14,6 +14,15 @@ Programs are nested Python lists = the s-expression fed to the model driver (see
   (prog (meths (m <nparams> (locals e...) (body s...) ret)...) (locals e...) (main s...))
 Types are tracked by the generator only ('I' Int, 'B' Bool, 'S' String); the printer needs them for the
 declarations, so a generated program is a dict {sx, meths:[{ptypes, ltypes, rtype}], ltypes}.
+
+Second generation (profile "cls"): an optional 4th section (classes (c <parent>|- (<name> (m ...))...)...) - user
+classes K0 (base, field @k: Int) and K1.. (subclasses, single inheritance, method overriding), plus the types
+'O' (K0, i.e. any class of the hierarchy), 'U' (Int | String | Symbol | Char | Bool | nil), 'LO' List[K0],
+'LU' List[<U>], 'fO'/'fU' (the loop variable of a for-in; not declared).  Expressions (nil) (sym a) (chr c)
+(new <class> e) (fld) (send recv <name> a...) (list e...); statement (for <slot> e (s...)).  Sends and inspect on
+'O'/'U' values are DYNAMICALLY dispatched call sites in the generated Go (Thread.CallMethodByNameWithCache); the
+lists have runs of equal classes (a a b c d d e e a ...) so that one call site sees many receiver classes in
+many orders.  p["classes"] = {names:[{ptypes, rtype}], cls:[{parent, meths:{name: ltypes}}]}.
 """
 import os
 import re
@@ -24,6 +33,7 @@ import time
 import vlib
 
 NATIVE = "c09.native"
+NQUICK = 40
 HELPERS = "c09.helpers"
 
 # ------------------------------------------------------------------ s-expressions
@@ -55,7 +65,8 @@ def sx_parse(s):
 
 BINOP = {"add": "+", "sub": "-", "mul": "*", "div": "/", "mod": "%"}
 CMPOP = {"lt": "<", "le": "<=", "gt": ">", "ge": ">=", "eq": "==", "ne": "!="}
-TYNAME = {"I": "Int", "B": "Bool", "S": "String"}
+UNION = "Int | String | Symbol | Char | Bool | nil"
+TYNAME = {"I": "Int", "B": "Bool", "S": "String", "O": "K0", "U": UNION, "LO": "List[K0]", "LU": "List[%s]" % UNION}
 
 
 def elk_expr(e, names):
@@ -86,6 +97,23 @@ def elk_expr(e, names):
         return "(%s).inspect" % elk_expr(e[1], names)
     if k == "call":
         return "m%s(%s)" % (e[1], ", ".join(elk_expr(a, names) for a in e[2:]))
+    if k == "nil":
+        return "nil"
+    if k == "sym":
+        return ":" + e[1]
+    if k == "chr":
+        return "`%s`" % e[1]
+    if k == "new":
+        return "K%s(%s)" % (e[1], elk_expr(e[2], names))
+    if k == "fld":
+        return "@k"
+    if k == "send":
+        r = elk_expr(e[1], names)
+        if not re.fullmatch(r"\w+", r):
+            r = "(%s)" % r
+        return "%s.n%s(%s)" % (r, e[2], ", ".join(elk_expr(a, names) for a in e[3:]))
+    if k == "list":
+        return "[%s]" % ", ".join(elk_expr(a, names) for a in e[1:])
     raise ValueError(e)
 
 
@@ -115,31 +143,52 @@ def elk_stmts(ss, names, ind, out):
             elk_stmts(s[2], names, ind + 1, out)
             out.append(pad + "end")
         elif k == "ret":
-            out.append("%sreturn %s" % (pad, elk_expr(s[1], names)))
+            out.append("%sreturn %s" % (pad, elk_cond(s[1], names)))     # `return !x` would be the macro call `return!`
         elif k == "ex":
             out.append(pad + elk_expr(s[1], names))
+        elif k == "for":
+            out.append("%sfor %s in %s" % (pad, names[int(s[1])], elk_expr(s[2], names)))
+            elk_stmts(s[3], names, ind + 1, out)
+            out.append(pad + "end")
         else:
             raise ValueError(s)
+
+
+def elk_method(head, m, ptypes, ltypes, rtype, self_slot, ind, out):
+    pad = "  " * ind
+    names = (["self"] if self_slot else []) + ["p%d" % j for j in range(len(ptypes))] + ["l%d" % j for j in range(len(ltypes))]
+    params = ", ".join("p%d: %s" % (j, TYNAME[t]) for j, t in enumerate(ptypes))
+    out.append("%sdef %s%s: %s" % (pad, head, "(%s)" % params if params or not self_slot else "", TYNAME[rtype]))
+    for j, (t, init) in enumerate(zip(ltypes, m[2][1:])):
+        if not t.startswith("f"):        # the loop variable of a for-in is declared by the loop
+            out.append("%s  var l%d: %s = %s" % (pad, j, TYNAME[t], elk_expr(init, names)))
+    elk_stmts(m[3][1:], names, ind + 1, out)
+    out.append("%s  %s" % (pad, elk_expr(m[4], names)))
+    out.append(pad + "end")
 
 
 def elk_program(p):
     sx = p["sx"]
     out = []
+    if len(sx) > 4:
+        ci = p["classes"]
+        for c, cl in enumerate(sx[4][1:]):
+            out.append("class K%d%s" % (c, "" if cl[1] == "-" else " < K%s" % cl[1]))
+            if cl[1] == "-":
+                out += ["  var @k: Int", "  init(k: Int)", "    @k = k", "  end"]
+            for nm, m in cl[2:]:
+                sg = ci["names"][int(nm)]
+                elk_method("n" + nm, m, sg["ptypes"], ci["cls"][c]["meths"][nm], sg["rtype"], True, 1, out)
+            out.append("end")
+            out.append("")
     for i, m in enumerate(sx[1][1:]):
         info = p["meths"][i]
-        np_ = int(m[1])
-        names = ["p%d" % j for j in range(np_)] + ["l%d" % j for j in range(len(info["ltypes"]))]
-        params = ", ".join("p%d: %s" % (j, TYNAME[t]) for j, t in enumerate(info["ptypes"]))
-        out.append("def m%d(%s): %s" % (i, params, TYNAME[info["rtype"]]))
-        for j, (t, init) in enumerate(zip(info["ltypes"], m[2][1:])):
-            out.append("  var l%d: %s = %s" % (j, TYNAME[t], elk_expr(init, names)))
-        elk_stmts(m[3][1:], names, 1, out)
-        out.append("  " + elk_expr(m[4], names))
-        out.append("end")
+        elk_method("m%d" % i, m, info["ptypes"], info["ltypes"], info["rtype"], False, 0, out)
         out.append("")
     names = ["l%d" % j for j in range(len(p["ltypes"]))]
     for j, (t, init) in enumerate(zip(p["ltypes"], sx[2][1:])):
-        out.append("var l%d: %s = %s" % (j, TYNAME[t], elk_expr(init, names)))
+        if not t.startswith("f"):
+            out.append("var l%d: %s = %s" % (j, TYNAME[t], elk_expr(init, names)))
     elk_stmts(sx[3][1:], names, 0, out)
     return "\n".join(out) + "\n"
 
@@ -150,12 +199,16 @@ P63 = 2 ** 63
 INT_LITS = [0, 1, 2, 3, 5, 7, 10, 12, 100, 255, 1000, 65536, 2 ** 31 - 1, 2 ** 31, 2 ** 32 + 1, 3037000499, 3037000500,
             2 ** 53, 2 ** 62 - 1, 2 ** 62, P63 - 2, P63 - 1, P63, P63 + 1, 2 ** 64 - 1, 2 ** 64, 2 ** 70 + 3]
 WORDS = ["a", "b", "x", "ab", "_", "k9", "q_", "zz", "elk", "n0"]
+SYMS = ["a", "b", "ok", "k9", "zz"]
+CHARS = ["c", "d", "x", "7"]
+UKINDS = ["int", "big", "str", "sym", "chr", "true", "false", "nil"]     # runtime classes Int String Symbol Char True False Nil
 
 
 class Gen:
     def __init__(self, rng):
         self.r = rng
         self.feat = {}
+        self.ci = None          # class info of the program being generated (second generation only)
 
     def f(self, k):
         self.feat[k] = self.feat.get(k, 0) + 1
@@ -182,8 +235,75 @@ class Gen:
             return self.int_lit()
         if t == "B":
             return ["b", self.r.choice(["t", "f"])]
+        if t == "O":
+            return self.new_obj(self.r.below(len(self.ci["cls"])))
+        if t == "U":
+            return self.ulit(self.r.choice(UKINDS))
+        if t == "LO":
+            return self.olist()
+        if t == "LU":
+            return self.ulist()
+        if t in ("fO", "fU"):
+            return ["nil"]
         w = self.r.choice(WORDS + [None])
         return ["s"] if w is None else ["s", w]
+
+    def new_obj(self, c):
+        return ["new", str(c), ["i", str(self.r.range(0, 9))]]
+
+    def ulit(self, kind):
+        r = self.r
+        if kind == "int":
+            return ["i", str(r.range(-9, 99))]
+        if kind == "big":
+            return ["i", str(2 ** 64 + r.range(0, 9))]
+        if kind == "str":
+            return ["s", r.choice(WORDS)]
+        if kind == "sym":
+            return ["sym", r.choice(SYMS)]
+        if kind == "chr":
+            return ["chr", r.choice(CHARS)]
+        if kind == "nil":
+            return ["nil"]
+        return ["b", "t" if kind == "true" else "f"]
+
+    def runs(self, nkinds):
+        """a sequence of 4..14 kinds with runs of equal kinds: a a b c d d e e a ..."""
+        r = self.r
+        n = r.range(4, 14)
+        out, k = [], None
+        stay = r.choice([(1, 4), (9, 20), (3, 5)])
+        for _ in range(n):
+            if k is None or not r.chance(*stay):
+                k = r.below(nkinds)
+            out.append(k)
+        return out
+
+    def olist(self):
+        self.f("list_obj")
+        return ["list"] + [self.new_obj(c) for c in self.runs(len(self.ci["cls"]))]
+
+    def ulist(self):
+        self.f("list_union")
+        return ["list"] + [self.ulit(UKINDS[k]) for k in self.runs(len(UKINDS))]
+
+    def send(self, t, sc, depth, recv=None):
+        """a dynamically dispatched call <O-typed variable>.n<j>(args) whose result has type t (None: any)"""
+        if not self.ci:
+            return None
+        names = [j for j in sc["send_names"] if t is None or self.ci["names"][j]["rtype"] == t]
+        if recv is None:
+            recv = self.var("O", sc)
+        if not names or recv is None or sc["calls_left"][0] <= 0:
+            return None
+        sc["calls_left"][0] -= 1
+        j = self.r.choice(names)
+        self.f("send")
+        return ["send", recv, str(j)] + [self.expr(pt, sc, min(depth, 1), in_call=True) for pt in self.ci["names"][j]["ptypes"]]
+
+    def show(self, e, t):
+        """a String-typed expression showing e : t"""
+        return e if t == "S" else ["insp", e]
 
     def var(self, t, sc):
         cands = [i for i, ty in enumerate(sc["types"]) if ty == t and i not in sc.get("hidden", ())]
@@ -204,9 +324,34 @@ class Gen:
         """in_call: inside a method-call argument list (println included): no && / || there, the checker
         panics on them (LogicalExpressionNode.splice, a parser/AST defect outside this property)"""
         r = self.r
+        if t in ("O", "LO", "LU"):
+            v = self.var(t, sc) if r.chance(2, 3) else None
+            return v if v is not None else self.lit(t)
+        if t == "U":
+            c = r.below(6)
+            if c < 2:
+                v = self.var("U", sc)
+                if v is not None:
+                    return v
+            if c < 3 and depth > 0:
+                return self.expr(r.choice(["I", "S", "B"]), sc, min(depth, 1), in_call)
+            return self.lit("U")
         if depth <= 0 or r.chance(1, 5):
             v = self.var(t, sc) if r.chance(2, 3) else None
             return v if v is not None else self.lit(t)
+        if self.ci and r.chance(1, 4):
+            c = r.below(4)
+            if t == "I" and sc.get("in_class") and c == 0:
+                self.f("field")
+                return ["fld"]
+            if t == "S" and c == 1:
+                v = self.var("U", sc)
+                if v is not None:
+                    self.f("inspect_dyn")
+                    return ["insp", v]
+            e = self.send(t, sc, depth)
+            if e is not None:
+                return e
         c = r.below(12)
         if t == "I":
             if c < 6:
@@ -277,6 +422,20 @@ class Gen:
         r = self.r
         out = []
         for _ in range(n):
+            if self.ci and r.chance(1, 4):
+                c = r.below(5)
+                lists = [i for i, ty in enumerate(sc["types"]) if ty in ("LO", "LU") and sc["loopvar"].get(ty) is not None
+                         and sc["loopvar"][ty] in sc["hidden"]]
+                if c < 3 and lists and depth > 0 and loop_depth < 2:
+                    out.append(self.forin(sc, r.choice(lists), depth, in_method, loop_depth))
+                    continue
+                t = r.choice(["O", "U", "U", "LO", "LU"])
+                cands = [i for i, ty in enumerate(sc["types"]) if ty == t and i >= sc["nparams"] and i not in sc["hidden"]
+                         and i not in sc["loopvar"].values()]
+                if cands:
+                    self.f("set_" + t)
+                    out.append(["set", str(r.choice(cands)), self.expr(t, sc, 2)])
+                    continue
             c = r.below(14)
             if c < 5:
                 t = r.choice(["I", "I", "I", "B", "S"])
@@ -327,21 +486,85 @@ class Gen:
             out.append(["print", self.expr("S", sc, 1, in_call=True)])
         return out
 
-    def scope(self, ptypes, rtype, callable_, bool_inspect):
-        nl = self.r.range(3, 6)
-        ltypes = ["I", "I"] + [self.r.choice(["I", "I", "B", "S"]) for _ in range(nl - 2)] + ["I", "I"]   # last two: loop counters
-        types = list(ptypes) + ltypes
-        n = len(types)
-        return dict(types=types, nparams=len(ptypes), ltypes=ltypes, rtype=rtype, callable=callable_,
-                    counters=set(), counter_slots=[n - 2, n - 1], calls_left=[6], bool_inspect=bool_inspect)
+    def forin(self, sc, lst, depth, in_method, loop_depth):
+        """for <loop variable> in <list local>: the first statement prints a dynamically dispatched call on the element"""
+        r = self.r
+        lt = sc["types"][lst]
+        x = sc["loopvar"][lt]
+        self.f("for_" + lt)
+        sc["hidden"].discard(x)
+        xv = ["v", str(x)]
+        if lt == "LO":
+            e = self.send(None, sc, 1, recv=xv)
+            first = ["print", self.show(e, self.ci["names"][int(e[2])]["rtype"])] if e is not None else ["print", ["s", "o"]]
+        else:
+            self.f("inspect_dyn")
+            first = ["print", ["insp", xv]]
+        body = [first]
+        if r.chance(1, 2):
+            body += self.stmts(sc, r.range(1, 2), depth - 1, in_method, loop_depth + 1)
+        sc["hidden"].add(x)
+        return ["for", str(x), ["v", str(lst)], body]
 
-    def program(self):
+    def scope(self, ptypes, rtype, callable_, bool_inspect, extra=(), self_slot=False):
+        nl = self.r.range(2, 3) if self_slot else self.r.range(3, 6)
+        ltypes = ["I", "I"] + [self.r.choice(["I", "I", "B", "S"]) for _ in range(nl - 2)] + list(extra) + ["I", "I"]   # last two: loop counters
+        pre = (["O"] if self_slot else []) + list(ptypes)
+        types = pre + [t[1:] if t.startswith("f") else t for t in ltypes]
+        n = len(types)
+        loopvar = {"L" + t[1:]: len(pre) + i for i, t in enumerate(ltypes) if t.startswith("f")}
+        return dict(types=types, nparams=len(pre), ltypes=ltypes, rtype=rtype, callable=callable_,
+                    counters=set(), counter_slots=[n - 2, n - 1], calls_left=[6], bool_inspect=bool_inspect,
+                    hidden=set(loopvar.values()), loopvar=loopvar, in_class=self_slot,
+                    send_names=list(range(len(self.ci["names"]))) if self.ci else [])
+
+    def classes(self):
+        """K0 (base: defines every method name) and 4..6 subclasses overriding some of them; parents precede children.
+        A class method may send only names of smaller index (to self or any object): no recursion through dispatch."""
+        r = self.r
+        ncls = r.range(5, 7)
+        nnames = r.range(1, 3)
+        names = []
+        for j in range(nnames):
+            names.append(dict(ptypes=[] if j == 0 and r.chance(2, 3) else [r.choice(["I", "I", "S", "O"]) for _ in range(r.range(0, 2))],
+                              rtype="S" if j == 0 else r.choice(["S", "S", "I", "B"])))
+        self.ci = dict(names=names, cls=[])
+        for c in range(ncls):
+            self.ci["cls"].append(dict(parent=None if c == 0 else (0 if c == 1 or r.chance(2, 3) else r.range(1, c - 1)), meths={}))
+        out = []
+        for c in range(ncls):
+            cl = self.ci["cls"][c]
+            ms = []
+            for j, sg in enumerate(names):
+                if c > 0 and not r.chance(3, 5):
+                    continue
+                self.f("class_method" if c == 0 else "override")
+                sc = self.scope(sg["ptypes"], sg["rtype"], [], False, self_slot=True)
+                sc["send_names"] = list(range(j))
+                sc["calls_left"] = [2]
+                body = self.stmts(sc, r.range(1, 2), 1, True, 0) if r.chance(1, 3) else []
+                ret = self.expr(sg["rtype"], sc, 2)
+                if sg["rtype"] == "S":
+                    ret = ["cat", ["s", "k%dn%d" % (c, j)], ret]       # the output names the implementation that ran
+                elif sg["rtype"] == "I":
+                    ret = ["bin", "add", ["i", str(1000 * (c + 1))], ret]
+                inits = [self.lit(t) for t in sc["ltypes"]]
+                ms.append([str(j), ["m", str(len(sg["ptypes"])), ["locals"] + inits, ["body"] + body, ret]])
+                cl["meths"][str(j)] = sc["ltypes"]
+            out.append(["c", "-" if cl["parent"] is None else str(cl["parent"])] + ms)
+        return ["classes"] + out
+
+    def program(self, with_classes=False):
         r = self.r
         nm = r.range(1, 4)
         bool_inspect = r.chance(1, 8)
+        classes_sx = self.classes() if with_classes else None
+        if with_classes:
+            nm = r.range(0, 3)
         self.sigs = []
         for i in range(nm):
-            self.sigs.append(dict(ptypes=[r.choice(["I", "I", "B", "S"]) for _ in range(r.range(0, 3))],
+            self.sigs.append(dict(ptypes=[r.choice(["I", "I", "B", "S"] + (["O", "U", "O"] if with_classes else []))
+                                          for _ in range(r.range(0, 3))],
                                   rtype=r.choice(["I", "I", "B", "S"])))
         rank = list(range(nm))
         r.shuffle(rank)         # a method may call only methods of smaller rank: no recursion, forward and backward references
@@ -349,7 +572,8 @@ class Gen:
         for i in range(nm):
             sg = self.sigs[i]
             recursive = sg["ptypes"][:1] == ["I"] and sg["rtype"] == "I" and r.chance(1, 3)
-            sc = self.scope(sg["ptypes"], sg["rtype"], [j for j in range(nm) if rank[j] < rank[i]], bool_inspect)
+            extra = r.choice([(), ("LO", "fO"), ("LU", "fU"), ("U",)]) if with_classes else ()
+            sc = self.scope(sg["ptypes"], sg["rtype"], [j for j in range(nm) if rank[j] < rank[i]], bool_inspect, extra)
             body = self.stmts(sc, r.range(1, 4), 2, True, 0)
             ret = self.expr(sg["rtype"], sc, 3)
             if recursive:
@@ -364,19 +588,42 @@ class Gen:
             meths_sx.append(["m", str(len(sg["ptypes"])), ["locals"] + inits, ["body"] + body, ret])
             infos.append(dict(ptypes=sg["ptypes"], ltypes=sc["ltypes"], rtype=sg["rtype"], recursive=recursive))
         self.sigs_rec = [m["recursive"] for m in infos]
-        sc = self.scope([], None, list(range(nm)), bool_inspect)
+        extra = ("O", "U", "LO", "LU", "fO", "fU") + (("LO",) if r.chance(1, 2) else ()) if with_classes else ()
+        sc = self.scope([], None, list(range(nm)), bool_inspect, extra)
         sc["calls_left"] = [10]
         main = self.stmts(sc, r.range(4, 9), 2, False, 0)
-        # every Int / String local is printed at the end, so silent state differences become visible
+        # every Int / String local is printed at the end, so silent state differences become visible;
+        # every object / list local is sent every method name (one call site per name sees the whole list)
+        sc["calls_left"] = [10 ** 6]
         for i, t in enumerate(sc["types"]):
+            if i in sc["hidden"]:
+                continue
             if t == "I":
                 main.append(["print", ["insp", ["v", str(i)]]])
             elif t == "S":
                 main.append(["print", ["v", str(i)]])
             elif t == "B":
                 main.append(["if", ["v", str(i)], [["print", ["s", "t"]]], [["print", ["s", "f"]]]])
+            elif t == "U":
+                main.append(["print", ["insp", ["v", str(i)]]])
+            elif t == "O":
+                e = self.send(None, sc, 1, recv=["v", str(i)])
+                main.append(["print", self.show(e, self.ci["names"][int(e[2])]["rtype"])])
+            elif t == "LU":
+                main.append(["for", str(sc["loopvar"]["LU"]), ["v", str(i)], [["print", ["insp", ["v", str(sc["loopvar"]["LU"])]]]]])
+            elif t == "LO":
+                x = sc["loopvar"]["LO"]
+                sc["hidden"].discard(x)
+                for j, sg in enumerate(self.ci["names"]):
+                    e = ["send", ["v", str(x)], str(j)] + [self.expr(pt, sc, 1, in_call=True) for pt in sg["ptypes"]]
+                    main.append(["for", str(x), ["v", str(i)], [["print", self.show(e, sg["rtype"])]]])
+                sc["hidden"].add(x)
         sx = ["prog", ["meths"] + meths_sx, ["locals"] + [self.lit(t) for t in sc["ltypes"]], ["main"] + main]
-        return dict(sx=sx, meths=infos, ltypes=sc["ltypes"])
+        p = dict(sx=sx, meths=infos, ltypes=sc["ltypes"])
+        if with_classes:
+            sx.append(classes_sx)
+            p["classes"] = self.ci
+        return p
 
 
 def fix_recursive_calls(p):
@@ -391,7 +638,7 @@ def fix_recursive_calls(p):
         return [go(x, inside) for x in e]
     sx = p["sx"]
     meths = ["meths"] + [go(m, i) for i, m in enumerate(sx[1][1:])]
-    p["sx"] = ["prog", meths, go(sx[2], -1), go(sx[3], -1)]
+    p["sx"] = ["prog", meths, go(sx[2], -1), go(sx[3], -1)] + sx[4:]
     return p
 
 
@@ -405,14 +652,28 @@ def load_corpus(path):
             if not line.strip() or line.startswith("#"):
                 continue
             ty, prog = line.split("\t")[:2]
-            t = sx_parse(ty)         # ((ltypes of main) ((ptypes) (ltypes) rtype)...)
+            t = sx_parse(ty)         # ((ltypes of main) ((ptypes) (ltypes) rtype)... [(classes (((ptypes) rtype)...) ((<name> (ltypes))...)...)])
+            ci = None
+            if len(t) > 1 and t[-1] and t[-1][0] == "classes":
+                c = t.pop()
+                sxp = sx_parse(prog)
+                ci = dict(names=[dict(ptypes=list(x[0]), rtype=x[1]) for x in c[1]],
+                          cls=[dict(parent=None if k[1] == "-" else int(k[1]), meths={nm: list(lt) for nm, lt in ms})
+                               for k, ms in zip(sxp[4][1:], c[2:])])
             meths = [dict(ptypes=list(m[0]), ltypes=list(m[1]), rtype=m[2], recursive=False) for m in t[1:]]
-            out.append(("k%d" % n, dict(sx=sx_parse(prog), meths=meths, ltypes=list(t[0]))))
+            p = dict(sx=sx_parse(prog), meths=meths, ltypes=list(t[0]))
+            if ci:
+                p["classes"] = ci
+            out.append(("k%d" % n, p))
     return out
 
 
 def corpus_line(p):
     t = [p["ltypes"]] + [[m["ptypes"], m["ltypes"], m["rtype"]] for m in p["meths"]]
+    if p.get("classes"):
+        ci = p["classes"]
+        t.append(["classes", [[n["ptypes"], n["rtype"]] for n in ci["names"]]] +
+                 [[[nm, lt] for nm, lt in c["meths"].items()] for c in ci["cls"]])
     return sx_str(t) + "\t" + sx_str(p["sx"])
 
 
@@ -502,12 +763,19 @@ class NativeBatch:
         self.ctx = ctx
         self.h = h
         self.dir = tempfile.mkdtemp(prefix="c09-%s-" % tag, dir="/tmp")
+        self.build_seconds = 0.0
         self.env = dict(vlib.GOENV, ELKPATH=vlib.REPO, ELKWARN="0", NO_COLOR="1")
         self.gomod = ("module c09batch\n\ngo 1.25.0\n\nrequire github.com/elk-language/elk v0.0.0\n\n"
                       "replace github.com/elk-language/elk => %s\n" % vlib.REPO)
 
     def close(self):
         shutil.rmtree(self.dir, ignore_errors=True)
+
+    def size(self, cid):
+        try:
+            return os.path.getsize(os.path.join(self.dir, cid, cid + ".go"))
+        except OSError:
+            return 1 << 30
 
     def emit_all(self, progs):
         """progs: list of (cid, elk source). -> {cid: (status, detail)} status: ok|rejected|backend_panic|bad_go"""
@@ -524,7 +792,11 @@ class NativeBatch:
             rc, out, err = run_cmd([self.h, "-mode", "emit", "-src", f, "-out", os.path.join(pk, cid + ".go"), "-pkg", cid],
                                    srcdir, self.env, 300)
             if rc == 0:
-                return cid, ("ok", "")
+                try:
+                    sites = open(os.path.join(pk, cid + ".go")).read().count("CallMethodByNameWithCache(")
+                except OSError:
+                    sites = 0
+                return cid, ("ok", sites)
             shutil.rmtree(pk, ignore_errors=True)
             if "panic:" in err or "goroutine " in err:
                 m = re.search(r"^panic: (.*)$", err, re.M)
@@ -535,7 +807,7 @@ class NativeBatch:
             if rc == 3:
                 return cid, ("bad_go", out[-400:])
             return cid, ("rejected", (out.strip().splitlines() or ["?"])[0][:200])
-        return dict(vlib.parallel_map(one, progs, workers=8))
+        return dict(vlib.parallel_map(one, progs, workers=10))
 
     def build(self, cids):
         """-> (binary or None, {cid: compile error text})"""
@@ -553,8 +825,10 @@ class NativeBatch:
             main += ["\t}", "}", ""]
             with open(os.path.join(self.dir, "main.go"), "w") as f:
                 f.write("\n".join(main))
+            t0 = time.time()
             rc, log = vlib.sh(["go", "build", "-tags", "native", "-ldflags", "-s -w", "-o", "prog", "."], cwd=self.dir,
                               env=self.env, timeout=3000)
+            self.build_seconds += time.time() - t0
             if rc == 0:
                 return os.path.join(self.dir, "prog"), bad
             failing = set(re.findall(r"^(?:\./)?(\w+)/\w+\.go:\d+", log, re.M)) | set(re.findall(r"^# c09batch/(\w+)", log, re.M))
@@ -592,7 +866,8 @@ class NativeBatch:
 def feature_key(p):
     """coarse shape of a program for failure keys"""
     s = sx_str(p["sx"])
-    feats = [k for k, pat in (("bool-inspect", r"\(insp \((?:cmp|not|and|or|b|call)"), ("while", r"\(while "), ("call", r"\(call "))
+    feats = [k for k, pat in (("bool-inspect", r"\(insp \((?:cmp|not|and|or|b|call)"), ("while", r"\(while "), ("call", r"\(call "),
+                              ("for", r"\(for "), ("send", r"\(send "), ("dyn-inspect", r"\(list \((?:i|s|sym|chr|b|nil)[ )]"))
              if re.search(pat, s)]
     return "+".join(feats) or "straight"
 
@@ -613,6 +888,10 @@ def has_bool_inspect(p):
             return types[int(e[1])]
         if k == "call":
             return sigs[int(e[1])]
+        if k == "fld":
+            return "I"
+        if k == "send" and p.get("classes"):
+            return p["classes"]["names"][int(e[2])]["rtype"]
         return "?"
 
     sigs = [m["rtype"] for m in p["meths"]]
@@ -627,23 +906,25 @@ def has_bool_inspect(p):
     for m, info in zip(p["sx"][1][1:], p["meths"]):
         walk(m, info["ptypes"] + info["ltypes"])
     walk(p["sx"][3], p["ltypes"])
+    if p.get("classes"):
+        for c, cl in enumerate(p["sx"][4][1:]):
+            for nm, m in cl[2:]:
+                walk(m, ["O"] + p["classes"]["names"][int(nm)]["ptypes"] + p["classes"]["cls"][c]["meths"][nm])
     return found[0]
 
 
 def run_native_stream(ctx, h, m, elk, cases, tag, plain_n):
     """cases: list of (cid, program dict). Returns stats."""
     st = dict(programs=len(cases), executed=0, rejected=0, backend_panic=0, model_skipped=0, mismatches=0, errors_expected=0,
-              reject_reasons={}, distinct=set(), lines_compared=0, plain_checked=0, vm_s=0, native_s=0, native_vm=0)
+              reject_reasons={}, distinct=set(), lines_compared=0, plain_checked=0, vm_s=0, native_s=0, native_vm=0,
+              corpus_programs=sum(1 for c, _ in cases if c.startswith("k")), corpus_executed=0, class_programs_executed=0,
+              dynamic_call_sites=0, build_s=0)
     if not cases:
         return st
     ids = [c for c, _ in cases]
     inputs = {c: sx_str(p["sx"]) for c, p in cases}
-    rc, exp, mout = vlib.run_model(m, ids, inputs, args=["prog"])
-    if rc != 0:
-        ctx.broke("correspondence %s: model driver exited %d" % (NATIVE, rc), mout[-2000:])
     srcs = {c: elk_program(p) for c, p in cases}
     byid = dict(cases)
-    # --- bytecode VM
     workdir = os.path.join(ctx.workdir, tag)
     os.makedirs(workdir, exist_ok=True)
     env = vlib.elk_env({"GOMAXPROCS": "4"})
@@ -656,14 +937,23 @@ def run_native_stream(ctx, h, m, elk, cases, tag, plain_n):
         if rc_ == 124:
             rc_, out, err = run_cmd([elk, "run", f], workdir, env, 600)
         os.remove(f)
-        return cid, observe(rc_, out, err)
-    vm = dict(vlib.parallel_map(run_vm, ids, workers=12))
-    # --- native
+        return observe(rc_, out, err)
+
+    # the bytecode-VM runs, the reference interpreter and the unmodified sample build overlap with the emission and
+    # the ONE batched `go build` (one link per run)
+    from concurrent.futures import ThreadPoolExecutor
+    pool = ThreadPoolExecutor(max_workers=10)
     nb = NativeBatch(ctx, h, tag)
     try:
+        model_f = pool.submit(vlib.run_model, m, ids, inputs, ["prog"])
+        vm_f = {c: pool.submit(run_vm, c) for c in ids}
         em = nb.emit_all([(c, srcs[c]) for c in ids])
         ok_ids = [c for c in ids if em[c][0] == "ok"]
+        # unmodified pipeline on ONE small program: its observation must equal the batched one
+        plain = sorted([c for c in ok_ids if c.startswith("g")], key=lambda c: (nb.size(c), c))[:plain_n]
+        plain_f = {c: pool.submit(nb.build_plain, c, srcs[c]) for c in plain}
         binary, bad = nb.build(ok_ids) if ok_ids else (None, {})
+        st["build_s"] = round(nb.build_seconds, 1)
         native = {}
         if binary:
             def run_nat(cid):
@@ -672,9 +962,10 @@ def run_native_stream(ctx, h, m, elk, cases, tag, plain_n):
                     rc_, out, err = run_cmd([binary, cid], nb.dir, env, 600)
                 return cid, observe(rc_, out, err)
             native = dict(vlib.parallel_map(run_nat, [c for c in ok_ids if c not in bad], workers=12))
-        # unmodified pipeline on a sample: its observation must equal the batched one
-        for cid in [c for c in ok_ids if c in native][:plain_n]:
-            pb, why = nb.build_plain(cid, srcs[cid])
+        for cid in plain:
+            pb, why = plain_f[cid].result()
+            if cid not in native:
+                continue
             if pb is None:
                 ctx.fail("native-compile-error:plain", "program %s: the unmodified generated main.go does not build: %s" % (cid, why),
                          stream=NATIVE, case=corpus_line(byid[cid]), impl=why, model="builds", oracle="the generated Go source compiles")
@@ -685,7 +976,12 @@ def run_native_stream(ctx, h, m, elk, cases, tag, plain_n):
             if o["kind"] != native[cid]["kind"] or obs_diff(o, native[cid]):
                 ctx.broke("correspondence %s: batched build and unmodified build of %s behave differently" % (NATIVE, cid),
                           "%r vs %r" % (o, native[cid]))
+        vm = {c: f.result() for c, f in vm_f.items()}
+        rc, exp, mout = model_f.result()
+        if rc != 0:
+            ctx.broke("correspondence %s: model driver exited %d" % (NATIVE, rc), mout[-2000:])
     finally:
+        pool.shutdown(wait=True)
         nb.close()
     # --- compare
     for cid in ids:
@@ -739,6 +1035,11 @@ def run_native_stream(ctx, h, m, elk, cases, tag, plain_n):
                 ctx.broke("correspondence %s: reference interpreter gave %s (ill-typed generated program?)" % (NATIVE, exp.get(cid)), case)
             continue
         st["executed"] += 1
+        if cid.startswith("k"):
+            st["corpus_executed"] += 1
+        if p.get("classes"):
+            st["class_programs_executed"] += 1
+        st["dynamic_call_sites"] += em[cid][1] if isinstance(em[cid][1], int) else 0
         st["distinct"].add(inputs[cid])
         st["lines_compared"] += len(mo["lines"])
         if mo["err"]:
@@ -813,7 +1114,10 @@ def run(ctx):
         "uncaught-error report parsed from stderr with the pattern `Error! Uncaught error <Class>: <message>`",
     ]
     ctx.run_proof_gate()
-    h = vlib.build_harness("c09")
+    # tags "native": the harness needs no hook file, and with the tag set of the native build every package of /repo is
+    # compiled once for the harness, the elk binary and the native binaries (tags do not enter the cache key of a
+    # package whose file list they do not change)
+    h = vlib.build_harness("c09", tags="native")
     m = vlib.build_model_exact("C09")
     # ---- c09.helpers
     vlib.value_stream(ctx, HELPERS, h, m, ctx.n(4000, 400000), helpers_key,
@@ -826,26 +1130,26 @@ def run(ctx):
     # ---- c09.native
     elk = vlib.build_elk()
     rng = ctx.rng(NATIVE)
-    nprog = ctx.n(20, 520)
+    nprog = ctx.n(NQUICK, 600)
     corpus = load_corpus(os.path.join(vlib.ROOT, "corpus", "C09.native.txt"))
     cases, feats = [], {}
     for i in range(nprog):
         g = Gen(rng)
-        p = fix_recursive_calls(g.program())
+        p = fix_recursive_calls(g.program(with_classes=(i % 4 != 0)))
         for k, v in g.feat.items():
             feats[k] = feats.get(k, 0) + v
         cases.append(("g%d" % i, p))
     t0 = time.time()
-    st_c = run_native_stream(ctx, h, m, elk, corpus, "corpus", 0) if corpus else None
-    batch = 130
+    batch = 150
     st = None
+    # one batch = one `go build` = one link; the corpus rides in the first batch (quick tier: the only one)
     for b in range(0, len(cases), batch):
-        s = run_native_stream(ctx, h, m, elk, cases[b:b + batch], "gen%d" % b, ctx.n(1, 3))
+        s = run_native_stream(ctx, h, m, elk, (corpus if b == 0 else []) + cases[b:b + batch], "gen%d" % b, 1 if b == 0 else 0)
         if st is None:
             st = s
         else:
             for k, v in s.items():
-                if isinstance(v, int):
+                if isinstance(v, (int, float)):
                     st[k] += v
                 elif isinstance(v, set):
                     st[k] |= v
@@ -859,19 +1163,25 @@ def run(ctx):
                         expected_uncaught_errors=st["errors_expected"], stdout_lines_compared=st["lines_compared"],
                         compared_vm_S=st["vm_s"], compared_native_S=st["native_s"], compared_native_vm=st["native_vm"],
                         unmodified_builds_checked=st["plain_checked"], mismatches=st["mismatches"], features=feats,
-                        corpus_programs=(st_c["programs"] if st_c else 0), corpus_executed=(st_c["executed"] if st_c else 0),
-                        corpus_skipped=((st_c["rejected"] + st_c["backend_panic"]) if st_c else 0),
-                        native_wall_s=round(time.time() - t0, 1))
-    samples = [{"program": elk_program(p)[:600]} for _, p in cases[:2]]
-    ctx.stream(NATIVE, st["executed"] + (st_c["executed"] if st_c else 0),
-               len(st["distinct"] | (st_c["distinct"] if st_c else set())),
-               "seeded well-typed programs: 1-4 methods (Int/Bool/String parameters, typed locals, calls along a random "
+                        corpus_programs=st["corpus_programs"], corpus_executed=st["corpus_executed"],
+                        class_programs_executed=st["class_programs_executed"],
+                        dynamic_call_sites_in_generated_go=st["dynamic_call_sites"],
+                        go_build_s=round(st["build_s"], 1), native_wall_s=round(time.time() - t0, 1))
+    samples = [{"program": elk_program(p)[:900]} for _, p in cases[:3]]
+    ctx.stream(NATIVE, st["executed"], len(st["distinct"]),
+               "seeded well-typed programs: 0-4 methods (Int/Bool/String parameters, typed locals, calls along a random "
                "acyclic order incl. forward references, optional bounded self-recursion), statements set/println/if/while/"
                "return/call, Int literals around 2^31, 2^53, 2^62..2^70, division and modulo with occasional zero divisors "
                "(uncaught ZeroDivisionError), short-circuit && ||, String concatenation, Int#inspect (Bool#inspect in 1/8 of the "
-               "programs); evaluation = one program run on BOTH back ends and compared with Sref and with each other (stdout "
-               "lines, uncaught error class+message, zero/non-zero status); non-trivial = distinct executed program; rejected / "
-               "back-end-panicking programs are skipped and counted (skip_rate)",
+               "programs); 3 of 4 programs also have a class hierarchy K0 + 4..6 subclasses (single inheritance of depth >= 1, "
+               "1-3 method names, each overridden in ~60% of the subclasses, field @k, self sends), object / union-typed "
+               "(Int | String | Symbol | Char | Bool | nil) locals and parameters, List[K0] and List[<union>] literals of 4-14 "
+               "elements with runs of equal classes, for-in loops (nested in while loops and methods) whose bodies send an "
+               "overridden method to / inspect the element, so that the dynamically dispatched call sites of the generated Go "
+               "(CallMethodByNameWithCache) see 1..7 receiver classes in many orders; evaluation = one program run on BOTH "
+               "back ends and compared with Sref and with each other (stdout lines, uncaught error class+message, zero/non-zero "
+               "status); non-trivial = distinct executed program; rejected / back-end-panicking programs are skipped and "
+               "counted (skip_rate)",
                samples, distribution)
     if st["programs"] and (skipped + st["model_skipped"]) * 2 > st["programs"]:
         ctx.broke("correspondence %s: more than half of the programs were not executed (%d rejected, %d back-end panics, %d model skips of %d)"
